@@ -123,6 +123,10 @@ pub fn ev_cases(pl: &Plain, two_d: bool, thorough: bool) -> Vec<EvCase> {
         v.push(EvCase { label: format!("term pair: other before step {}", k), specs: vec![t(a), t(b).term(1)], known_root: Some(a) });
         v.push(EvCase { label: format!("term pair: other after step {}", k), specs: vec![t(b), t(a).term(1)], known_root: Some(b) });
         v.push(EvCase { label: format!("term triple step {}", k), specs: vec![nt(c), t(b).term(1), t(a)], known_root: Some(c) });
+        // a function counted with terminal_count(2) that fires only once: the run goes on, and what fires later
+        // in the same step (and in later steps) is reported as if the count were not there
+        v.push(EvCase { label: format!("count-2 function fires once, another later in step {}", k), specs: vec![t(a).term(2), t(b), nt(c)], known_root: Some(a) });
+        v.push(EvCase { label: format!("count-3 function last in the list, step {}", k), specs: vec![t(b), nt(c), t(a).term(3)], known_root: Some(b) });
         if let Ok(y) = sol.sol(b) {
             v.push(EvCase { label: format!("t-c and y0-c coincident step {}", k), specs: vec![t(b), EventSpec::new(EvKind::Y(0, y[0]))], known_root: Some(b) });
             v.push(EvCase { label: format!("y0-c then t-c step {}", k), specs: vec![EventSpec::new(EvKind::Y(0, y[0])), t(a), EventSpec::new(EvKind::Cos(3.0))], known_root: None });
@@ -378,7 +382,14 @@ fn run_case_c0809(cx: &Ctx, key: &str, ec: &EvCase, mode: Mode) -> CaseOut {
     let mut vs = vec![];
     let mut tags = vec![];
     let mut detail = json!(null);
-    let has_term = ec.specs.iter().any(|e| e.terminal.is_some());
+    // a count of two or more on a function with a single root (t - c) is never reached: for the oracle that
+    // function is an ordinary one
+    let reaches = |e: &EventSpec| match (e.terminal, &e.kind) {
+        (None, _) => false,
+        (Some(n), EvKind::T(_) | EvKind::NegT(_)) => n <= 1,
+        (Some(_), _) => true,
+    };
+    let has_term = ec.specs.iter().any(|e| reaches(e));
     match &r.out {
         Outcome::Ok(s) if s.status == Status::Success || (has_term && s.status == Status::UserInterrupt) => {
             detail = json!({"t_events": s.t_events, "n_steps": cx.grid.len() - 1, "first_step": cx.cfg.first_step, "status": format!("{:?}", s.status), "t_last": s.t.last()});
@@ -387,7 +398,7 @@ fn run_case_c0809(cx: &Ctx, key: &str, ec: &EvCase, mode: Mode) -> CaseOut {
                 // and the (t - c) events of the same step that the integration met before it are there
                 tags.push("terminal-in-multi");
                 let tl = *s.t.last().unwrap();
-                let tstop = ec.specs.iter().find(|e| e.terminal.is_some()).and_then(|e| match e.kind {
+                let tstop = ec.specs.iter().find(|e| reaches(e)).and_then(|e| match e.kind {
                     EvKind::T(c) | EvKind::NegT(c) => Some(c),
                     _ => None,
                 });
@@ -403,7 +414,7 @@ fn run_case_c0809(cx: &Ctx, key: &str, ec: &EvCase, mode: Mode) -> CaseOut {
                 }
                 if let Some(ts) = tstop {
                     for (i, e) in ec.specs.iter().enumerate() {
-                        if let (None, EvKind::T(c) | EvKind::NegT(c)) = (e.terminal, &e.kind) {
+                        if let (false, EvKind::T(c) | EvKind::NegT(c)) = (reaches(e), &e.kind) {
                             let c = *c;
                             // roots closer together than the root-finder's resolution have no defined order
                             if (c - ts).abs() <= 1e-9 {
